@@ -25,7 +25,7 @@ LEVEL = "exploration"
 TIMEOUT = {"quick": 1500, "thorough": 7200}
 RULE = (
     "histories of 5-12 (quick) / up to 30 (thorough) steps drawn from {derive, compute subset, store/to_zarr (eager|lazy, "
-    "path|existing array) of any pool member, re-compute, change default executor}; pool built by vlib.gen.Gen; half of "
+    "path|existing array) of any pool member, re-compute, change default executor, and (6%) the motif compute m / compute m with resume / save m to a new path / compute a dependent with resume}; 30% of computes and 12% of stores pass resume=True; pool built by vlib.gen.Gen; half of "
     "the histories use the global default configuration (spec=None). An evaluation = one history step followed by its "
     "checks; non-trivial = the step came after at least one store/to_zarr or compute of a related array; distinct by hash "
     "of (history prefix)"
@@ -140,12 +140,16 @@ class History:
         kw["executor"] = runner.make_executor(rng.choice(["single-threaded", "single-threaded", "threads"]))
         return kw
 
-    def step_compute(self, viols, label="compute"):
+    def step_compute(self, viols, label="compute", pick=None, force=None):
         import cubed
 
         ms = self.members()
-        pick = self.rng.sample(ms, min(len(ms), self.rng.randint(1, 3)))
+        if pick is None:
+            pick = self.rng.sample(ms, min(len(ms), self.rng.randint(1, 3)))
         kw = self.compute_kw()
+        kw.update(force or {})
+        if kw.get("resume") is False:
+            kw.pop("resume")
         desc = {"step": label, "members": pick, "optimize": kw["optimize_graph"], "resume": kw.get("resume", False), "executor": kw["executor"].name}
         try:
             with warnings.catch_warnings():
@@ -173,22 +177,25 @@ class History:
                 viols.append(("value-changed", f"member {i} ({self.g._nodes[i]['op']}) computed after history {self.describe()}: {d}", {"member_op": self.g._nodes[i]["op"]}))
         return desc
 
-    def step_store(self, viols):
+    def storable(self):
+        return [i for i in self.members() if self.g._vals[i].ndim >= 1 and self.g._vals[i].size > 0 and self.g._vals[i].dtype.kind in "biuf"]
+
+    def step_store(self, viols, member=None, new_path=False):
         import zarr
 
         import cubed
 
         rng = self.rng
-        ms = [i for i in self.members() if self.g._vals[i].ndim >= 1 and self.g._vals[i].size > 0 and self.g._vals[i].dtype.kind in "biuf"]
+        ms = self.storable()
         if not ms:
             return {"step": "store", "ok": False}
-        i = rng.choice(ms)
+        i = rng.choice(ms) if member is None else member
         want = np.asarray(self.g._vals[i])
         k = len(self.targets)
         path = os.path.join(self.wd, f"target{k}.zarr")
         api = rng.choice(["store", "to_zarr"])
         lazy = rng.random() < 0.35
-        existing = rng.random() < 0.3
+        existing = rng.random() < 0.3 and not new_path
         desc = {"step": "store", "member": i, "api": api, "lazy": lazy, "existing": existing, "has_dependents": any(i in n.get("in", []) for n in self.g._nodes)}
         tgt = path
         if existing:
@@ -196,7 +203,9 @@ class History:
                 z = zarr.create_array(store=path, shape=want.shape, dtype=want.dtype, chunks=tuple(max(1, s // 2) for s in want.shape), overwrite=True)
             tgt = zarr.open_array(path, mode="r+")
         kw = self.compute_kw()
-        kw.pop("resume", None)
+        if rng.random() < 0.6:
+            kw.pop("resume", None)
+        desc["resume"] = kw.get("resume", False)
         try:
             with warnings.catch_warnings():
                 warnings.simplefilter("ignore")
@@ -231,6 +240,25 @@ class History:
             self.targets.append((path, dir_digest(path), i))
         return desc
 
+    def step_motif(self, viols):
+        """compute m; compute m again with resume (its operation is seen complete); save m to a new path; compute m's
+        dependents (or m) with resume: the value of everything built before must not depend on that history."""
+        ms = self.storable()
+        if not ms:
+            return {"step": "motif", "ok": False}
+        withdeps = [i for i in ms if any(i in n.get("in", []) for n in self.g._nodes)]
+        m = self.rng.choice(withdeps or ms)
+        deps = [k for k in self.members() if m in self.g._nodes[k].get("in", [])]
+        sub = [self.step_compute(viols, label="motif-compute", pick=[m], force={"resume": False})]
+        if not viols:
+            sub.append(self.step_compute(viols, label="motif-resume", pick=[m], force={"resume": True, "optimize_graph": self.rng.random() < 0.5}))
+        if not viols:
+            sub.append(self.step_store(viols, member=m, new_path=True))
+        if not viols:
+            pick = ([self.rng.choice(deps)] if deps and self.rng.random() < 0.7 else [m])
+            sub.append(self.step_compute(viols, label="motif-after", pick=pick, force={"resume": True}))
+        return {"step": "motif", "member": m, "sub": sub}
+
     def step_config(self):
         import cubed
 
@@ -262,7 +290,7 @@ class History:
                     viols.append(("earlier-target-modified", f"target {os.path.basename(path)} written by an earlier store call changed: {dd}; history {self.describe()}", {}))
 
     def describe(self):
-        return [{k: v for k, v in s.items() if k in ("step", "member", "members", "api", "lazy", "existing", "resume", "optimize", "ops", "has_dependents")} for s in self.steps]
+        return [{k: v for k, v in s.items() if k in ("step", "member", "members", "api", "lazy", "existing", "resume", "optimize", "ops", "has_dependents", "sub")} for s in self.steps]
 
 
 def run_history(seed, workdir, maxdim, nsteps, res, use_global):
@@ -276,7 +304,10 @@ def run_history(seed, workdir, maxdim, nsteps, res, use_global):
         for t in range(nsteps):
             viols = []
             r = h.rng.random()
-            if r < 0.35:
+            if r < 0.06 and t >= 2:
+                s = h.step_motif(viols)
+                res["counters"]["compute_resume_store_resume_motifs"] += 1 if s.get("sub") and len(s["sub"]) == 4 else 0
+            elif r < 0.35:
                 s = h.step_derive()
             elif r < 0.6:
                 s = h.step_compute(viols)
@@ -311,7 +342,7 @@ def run_history(seed, workdir, maxdim, nsteps, res, use_global):
     return all_viols, h
 
 
-EXTRA = ("histories", "steps", "store_calls", "stores_of_arrays_with_dependents")
+EXTRA = ("compute_resume_store_resume_motifs", "histories", "steps", "store_calls", "stores_of_arrays_with_dependents")
 
 
 def run_shard(spec, workdir):
@@ -350,6 +381,7 @@ def finalize(tier, merged):
         "floors": [
             ("history steps executed and checked", c.get("steps", 0), 2500 if tier == "quick" else 40000),
             ("store/to_zarr calls inside histories", c.get("store_calls", 0), 400 if tier == "quick" else 6000),
+            ("compute / compute(resume) / store / compute(resume) motifs completed", c.get("compute_resume_store_resume_motifs", 0), 60 if tier == "quick" else 900),
             ("stores of arrays that other pool members depend on", c.get("stores_of_arrays_with_dependents", 0), 100 if tier == "quick" else 1500),
         ],
         "assumptions": ASSUMPTIONS,
